@@ -63,8 +63,29 @@ def vb_text(vbox, style):
     return " ".join(toks)
 
 
+# A fixed, fully explicit call made immediately before every call under test: the answer to a
+# call must depend on its own arguments only, not on what an earlier call asked for (a default
+# that is overwritten in place, a cache keyed too coarsely).
+COND_ARGS = ("1 2 4 3", "xMaxYMin slice", 8, 8)
+COND_WANT = (F(8, 3), F(8, 3), F(-2), F(-2))   # = reference((1,2,4,3), (8,8), xMaxYMin, slice)
+
+
+def conditioning_call(plot_utils):
+    """Returns None, or a description of a wrong answer to the conditioning call itself."""
+    got = plot_utils.vb_scale(*COND_ARGS)
+    if any(abs(F(g) - w) > F(1, 10 ** 9) for g, w in zip(got, COND_WANT)):
+        return f"vb_scale{COND_ARGS!r} = {tuple(got)!r}, expected {tuple(map(float, COND_WANT))!r}"
+    return None
+
+
 def check_valid(vbox, doc, align, mos, defer, style, vb_style, p_a_r_override=False):
     plot_utils = _lib()
+    try:
+        cond = conditioning_call(plot_utils)
+    except Exception as exc:                # pylint: disable=broad-except
+        cond = f"vb_scale{COND_ARGS!r} raised {exc!r}"
+    if cond:
+        return [("conditioning", cond + " (asked right before/after other calls in this process)")]
     if p_a_r_override is not False:
         par = p_a_r_override
         eff_align, eff_mos = "xMidYMid", "meet"
